@@ -23,7 +23,7 @@ import (
 )
 
 func init() {
-	register(&Scenario{Name: "sysws", Props: []string{"C20", "C16"}, Kind: "system", Run: runSysWS})
+	register(&Scenario{Name: "sysws", Props: []string{"C20", "C16", "C13"}, Kind: "system", Run: runSysWS})
 }
 
 type wsEnd struct {
@@ -46,7 +46,13 @@ func (e *wsEnd) readLoop(x *X, r io.Reader) {
 		}
 		if err != nil {
 			e.eof, e.eofAt = true, x.Now()
+			conn := e.conn
 			e.mu.Unlock()
+			// a peer that sees the end of the stream closes its own side too (ReverseProxy
+			// propagates a clean EOF as a half-close and waits for the other direction)
+			if conn != nil {
+				conn.Close()
+			}
 			return
 		}
 		e.mu.Unlock()
@@ -324,6 +330,34 @@ func runSysWS(x *X) {
 	}
 	if !done || !survivor.eof {
 		x.Violate("C20", "C20/close-not-propagated{to-"+sname+"}", "one side closed the tunnel and the %s still had an open connection several simulated minutes later", sname)
+	}
+	// ---- C13: a WebSocket session is a request like any other for the accounting ------------
+	if done && x.Want("C13") {
+		client.mu.Unlock()
+		backend.mu.Unlock()
+		waitQuiet()
+		m := env.lb.GetMetricsCollector().GetMetrics()
+		if m.SuccessfulRequests+m.FailedRequests+m.RateLimitedRequests != m.TotalRequests {
+			x.Violate("C13", "C13/classes-do-not-add-up{websocket}", "after one WebSocket session (closed on both sides): successful(%d)+failed(%d)+rate_limited(%d) != total_requests(%d)", m.SuccessfulRequests, m.FailedRequests, m.RateLimitedRequests, m.TotalRequests)
+		}
+		var perBackend uint64
+		for name, bm := range m.BackendMetrics {
+			perBackend += bm.TotalRequests
+			if bm.ActiveConnections != 0 {
+				x.Violate("C13", "C13/gauge-metrics{websocket}", "backend %s: metrics active_connections=%d after the tunnel was closed", name, bm.ActiveConnections)
+			}
+		}
+		if perBackend != 1 {
+			x.Violate("C13", "C13/per-backend-total{websocket}", "one Upgrade request was sent to a backend; the per-backend totals add up to %d", perBackend)
+		}
+		for _, bi := range env.lb.ListBackends() {
+			if bi.ActiveConnections != 0 {
+				x.Violate("C13", "C13/gauge-admin{websocket}", "backend %s: active_connections=%d after the tunnel was closed", bi.Name, bi.ActiveConnections)
+			}
+		}
+		x.Probe("ws-accounting-checked")
+		client.mu.Lock()
+		backend.mu.Lock()
 	}
 	x.State(fmt.Sprint(names), fmt.Sprint(closer))
 }
